@@ -51,7 +51,12 @@ Options ==
    O("-xticklabels", <<"a,b,c", "x,y">>, "xticklabels", <<"a|b|c", "x|y">>, {}),
    O("-yticklabels", <<"lo,mid,hi", "p,q">>, "yticklabels", <<"lo|mid|hi", "p|q">>, {}),
    O("-af", <<"key", "score,key">>, "annotationfields", <<"1", "2">>, {}),
-   O("-obsleg", <<"Measured", "Truth">>, "obsleg", <<"Measured", "Truth">>, {"legend"}) }
+   O("-obsleg", <<"Measured", "Truth">>, "obsleg", <<"Measured", "Truth">>, {"legend"}),
+   \* colour scale of the map view: its label and its limits (every panel's points use the same limits)
+   O("-clabel", <<"Score_c", "C2">>, "clabel", <<"Score_c", "C2">>, {}),
+   O("-clim", <<"0,3", "-1,10">>, "clim", <<"0,3", "-1,10">>, {}),
+   O("-cmap", <<"jet", "RdBu">>, "cmap", <<"jet", "RdBu">>, {}) }
+MapOnly == {"-clabel", "-clim", "-cmap"}
 \* -afs shows only together with -a ; -xticklabels / -yticklabels only together with the tick positions
 Requires(flag) == IF flag \in {"-afs", "-af"} THEN {"-a"} ELSE IF flag = "-xticklabels" THEN {"-xticks"} ELSE IF flag = "-yticklabels" THEN {"-yticks"} ELSE {}
 \* tick labels go with the tick positions of the same alternative (as many labels as ticks)
